@@ -66,7 +66,7 @@ func runC15(c *eng.Ctx, tier string) {
 	if n == 0 {
 		c.Undecided("R-C15-1", nil, 0, "watcher creation sites", "none found")
 	}
-	notify := p.Func(setecPkg, "watcher.notify")
+	notify := anchor(p, setecPkg, "watcher.notify")
 	if notify == nil {
 		c.Undecided("R-C15-1", nil, 0, "setec.watcher.notify", "anchor does not resolve")
 	} else {
@@ -171,7 +171,7 @@ func runC15(c *eng.Ctx, tier string) {
 	}
 
 	// R-C15-3 registration
-	lw := p.Method(setecPkg, "Store", "lookupWatcher")
+	lw := anchor(p, setecPkg, "(*Store).lookupWatcher")
 	if lw == nil {
 		c.Undecided("R-C15-3", nil, 0, "setec.(*Store).lookupWatcher", "anchor does not resolve")
 	} else {
@@ -253,7 +253,7 @@ func runC15(c *eng.Ctx, tier string) {
 			if !ok {
 				return
 			}
-			if prm, isP := eng.Origin(call.Call.Value).(*ssa.Parameter); isP && prm.Name() == "newValue" && len(call.Call.Args) == 1 {
+			if prm, isP := eng.Origin(call.Call.Value).(*ssa.Parameter); isP && isBuilderType(prm.Type()) && len(call.Call.Args) == 1 {
 				if p.DependsOn(call.Call.Args[0], func(v ssa.Value) bool { return lwCall != nil && v == ssa.Value(lwCall) }) {
 					okk = true
 				}
@@ -447,4 +447,11 @@ func c15Get(c *eng.Ctx) {
 		}
 		c.Check(okk, "R-C15-5", get, r.Pos(), eng.InstrStr(r), "Get returns the current value of the field, read after any replacement", "returns "+eng.ValStr(rv[0]))
 	}
+}
+
+
+// isBuilderType: func([]byte) (T, error), the value builder of an Updater.
+func isBuilderType(t types.Type) bool {
+	sg, ok := t.Underlying().(*types.Signature)
+	return ok && sg.Params().Len() == 1 && isByteSlice(sg.Params().At(0).Type()) && sg.Results().Len() == 2 && eng.IsErrorType(sg.Results().At(1).Type())
 }
